@@ -456,6 +456,11 @@ func checkC16(tier, replay string) int {
 	}
 	// realistic well-formed listings from the site model (several functions, several sites per function)
 	c16Listings(ctx, checkTextAdapter(func(pc int, shapes []int) { checkText(parsers[pc], shapes, true, make([][]modelSite, len(shapes)+1)) }), tier)
+	// real listings of a real program, whole and cut at function boundaries
+	realLines, realSites, realPrefixes := c16RealListings(ctx, scratch, tier, map[string]map[int]string{"x86_64": parsers[0].names, "i386": parsers[1].names})
+	ctx.Cov["real_listing_lines"] = realLines
+	ctx.Cov["real_listing_syscall_sites"] = realSites
+	ctx.Cov["real_listing_prefixes_at_function_boundaries"] = realPrefixes
 	// fault enumeration: a read error at every read call, and unreadable inputs
 	faults := c16ReadFaults(ctx, scratch)
 	ctx.Cov["evaluations"] = parsed + faults
@@ -468,7 +473,7 @@ func checkC16(tier, replay string) int {
 	ctx.Cov["read_fault_runs"] = faults
 	ctx.Cov["max_lines"] = maxLines
 	ctx.Cov["long_function_sweep_max"] = c16LongFunctions
-	ctx.Cov["rule"] = fmt.Sprintf("all texts of <= %d lines over a %d-shape line alphabet (5 kinds of function marker incl. 'TEXT ', bare 'TEXT' and a generic symbol containing blanks, raw syscall instruction with and without location fields, the other architecture's raw instruction, number loads into AX/BP/stack, negative/unparsable/unknown numbers, the XOR idiom, calls of syscall.Syscall with and without location fields, neutral, empty and a 70000-byte line) for both parsers, with and without trailing newline, parsed by the real ExtractSyscalls under recover and compared with an independent site-model parser (number, name, caller, location), with the oracle tables, for monotonicity under appended functions and for an error whenever the text cannot be read to the end; plus generated multi-function listings (also with numbers carrying the x32 marker bit 0x40000000 on top of a valid number), a size sweep (load and site n neutral instructions apart for every n up to the bound in long_function_sweep_max, alone and followed by another function) and a read error injected (strace) at every read call of 3 listings; non-trivial = parses that report at least one syscall", maxLines, shCount)
+	ctx.Cov["rule"] = fmt.Sprintf("all texts of <= %d lines over a %d-shape line alphabet (5 kinds of function marker incl. 'TEXT ', bare 'TEXT' and a generic symbol containing blanks, raw syscall instruction with and without location fields, the other architecture's raw instruction, number loads into AX/BP/stack, negative/unparsable/unknown numbers, the XOR idiom, calls of syscall.Syscall with and without location fields, neutral, empty and a 70000-byte line) for both parsers, with and without trailing newline, parsed by the real ExtractSyscalls under recover and compared with an independent site-model parser (number, name, caller, location), with the oracle tables, for monotonicity under appended functions and for an error whenever the text cannot be read to the end; plus the real `go tool objdump` output of a sample Go program built for amd64 and 386 (whole, and cut at function boundaries) compared with a text-level site model written without regular expressions, generated multi-function listings (also with numbers carrying the x32 marker bit 0x40000000 on top of a valid number), a size sweep (load and site n neutral instructions apart for every n up to the bound in long_function_sweep_max, alone and followed by another function) and a read error injected (strace) at every read call of 3 listings; non-trivial = parses that report at least one syscall", maxLines, shCount)
 	ctx.Assumptions = []string{"site model: the number is taken from the nearest preceding number-loading instruction of the same function after the previous detected site; raw sites inside syscall.Syscall wrappers are not sites", "strace fault injection (-e inject=read:error=EIO:when=N) realises read failures"}
 	ctx.Sample(map[string]any{"text": []string{"TEXT main.f0(SB) /src/f.go", "  f.go:1\t0x401001\t0f05\tMOVQ $0x3b, AX", "TEXT main.f2(SB) /src/f.go", "  f.go:3\t0x401003\t0f05\tSYSCALL"}, "expected": "no syscall: the load belongs to another function"})
 	return ctx.Finish()
